@@ -33,7 +33,7 @@ CLAIMED.update({
    technique='contract-based deductive verification: AST symbolic executor over the real functions with sidecar contracts (Boogie-style heap, loop invariants, calls by contract), typed quantifier instantiation -> QF VCs (z3); bounded-scope refutation + native replay',
    level='proof',
    text='Well-formedness (indices in range, single producer, execution order, graph outputs in range, inserted op placed after the producer and before the first consumer) is proved as a postcondition of the real insert_quant / insert_dequant / add_op_code / add_new_activation_tensor for every graph size, operand count and consumer list (ghost producer map; all loops by invariant). '
-        'The performer bookkeeping (_create_op_id_map, _update_op_id_map, _apply_single_transformation, _update_instructions), the graph facts every instruction is built from (_tensor_info_generator: one record per tensor, producer = first operator that outputs it, consumers = marker first then every reader once, ascending), model-wide tensor-name uniqueness (_check_tensor_names_are_unique) and uniqueness of inserted names (get_unique_tensor_name) are under contract as well. The vertical optimisation of the instruction generator (_apply_vertical_optimization: which instruction(s) replace each consumer rule, producer rule kept iff it still has consumers, list.remove never raises) is under contract; consumer grouping, the _produce_* list builders and the generator->performer composition are covered only by labelled bounded stand-ins.',
+        'The performer bookkeeping (_create_op_id_map, _update_op_id_map, _apply_single_transformation, _update_instructions), the graph facts every instruction is built from (_tensor_info_generator: one record per tensor, producer = first operator that outputs it, consumers = marker first then every reader once, ascending), model-wide tensor-name uniqueness (_check_tensor_names_are_unique) and uniqueness of inserted names (get_unique_tensor_name) are under contract as well. The vertical optimisation of the instruction generator (_apply_vertical_optimization: which instruction(s) replace each consumer rule, producer rule kept iff it still has consumers, list.remove never raises) and _produce_transformation_for_vertical_opt (one instruction per consumer group, every member named once, for an arbitrary enumeration of the group set) are under contract; consumer grouping, the second _produce_* builder and the generator->performer composition are covered only by labelled bounded stand-ins.',
    note='Unchecked: LiteRT allocate/invoke (external runtime); flatbuffer serializer fidelity; object-API classes modelled as attribute bags; numpy int32 index arrays as int lists. _apply_transformations / transform_graph are dataflow patterns on the real AST. Known finding: LiteRT aborts the process for a 16-bit ADD with a degenerate calibrated output range (replayed in a child process).',
    design='§4 C01'),
  'C11': dict(
